@@ -38,13 +38,19 @@ def main():
     os.makedirs("/tmp/mutsuite", exist_ok=True)
     lock = open("/tmp/mutsuite/lock", "w")
     fcntl.flock(lock, fcntl.LOCK_EX)
-    # base commit of the change = HEAD of the author's worktree (else /repo's HEAD)
-    base = None
+    # The change is validated on top of /repo's CURRENT HEAD (the models in /verif mirror the
+    # repaired code, so an older base would make the check disagree for reasons that have nothing
+    # to do with the change); the author's base commit is recorded, and used only when the patch
+    # no longer applies to HEAD.
+    author_base = None
     if os.path.isdir(own_wt):
         rc, o = sh("git rev-parse HEAD", cwd=own_wt)
-        base = o.strip() if rc == 0 else None
-    if not base:
-        base = sh("git rev-parse HEAD", cwd="/repo")[1].strip()
+        author_base = o.strip() if rc == 0 else None
+    head = sh("git rev-parse HEAD", cwd="/repo")[1].strip()
+    res["author_base_commit"] = author_base
+    base = head
+    if "--author-base" in a and author_base:
+        base = author_base
     res["base_commit"] = base
     if not os.path.isdir(SH_WT):
         sh(f"git -C /repo worktree add --detach {SH_WT} {base}")
@@ -54,6 +60,13 @@ def main():
     # 1. clean shared worktree at the base commit, apply patch
     sh(f"git checkout -q -- . && git clean -fdq && git checkout -q --detach {base}", cwd=wt)
     rc, o = sh(f"git apply --check {patch} && git apply {patch}", cwd=wt)
+    if rc != 0:
+        rc, o = sh(f"git apply -3 {patch} && git reset -q", cwd=wt)
+        res["applied_with_3way"] = rc == 0
+    if rc == 0:
+        # from here on work with the patch as it applies to this base
+        patch = os.path.join("/tmp/mutsuite", "current.patch")
+        open(patch, "w").write(sh("git diff", cwd=wt)[1])
     res["patch_applies"] = rc == 0
     if rc != 0:
         res["error"] = o[-2000:]
